@@ -91,19 +91,21 @@ def read_cpp(text):
     for b in blocks:
         m = re.search(r'new Amplitude\{\s*"(.*)",\s*mkvar\("(.*)", (true|false), ([^,]+), ([^)]+)\),\s*mkvar\("(.*)", (true|false), ([^,]+), ([^)]+)\),', b)
         sfs, lss, n = goofitio.read_amplitude(b, "cpp")
+        splines = [[r_, fnum(a_), fnum(b_), int(n_)] for r_, a_, b_, n_ in
+                   re.findall(r'Lineshapes::GSpline\("([^"]+)".*?spline_t\(([^,]+),([^,]+),\s*(\d+)\)', b, re.S)]
         if not m:
             model["amps"].append(dict(BLANK_AMP, title="?unreadable"))
             continue
         model["amp_titles"].append(m.group(1))
         model["amps"].append({"title": m.group(1), "re_name": m.group(2), "im_name": m.group(6),
                               "re": fnum(m.group(4)), "im": fnum(m.group(8)), "fixed": m.group(3) == "true",
-                              "fixed_im": m.group(7) == "true", "sfs": sfs, "lss": lss, "n": n})
+                              "fixed_im": m.group(7) == "true", "sfs": sfs, "lss": lss, "n": n, "splines": splines})
     return model, events
 
 
 # ------------------------------------------------------------------ Python reader (through execution)
 BLANK_AMP = {"title": "?", "re_name": "?", "im_name": "??", "re": "?", "im": "?", "fixed": False, "fixed_im": False,
-             "sfs": [], "lss": [], "n": -1}
+             "sfs": [], "lss": [], "n": -1, "splines": []}
 
 
 def read_py(text, exempt=()):
@@ -128,14 +130,17 @@ def read_py(text, exempt=()):
             lf = lf if isinstance(lf, (tuple, list)) else [lf]
             sf = sf if isinstance(sf, (tuple, list)) else [sf]
             sfs = [{"name": s.args[1]._path.split(".")[-1], "idx": [int(x) + 1 for x in s.args[2:6]]} for s in sf]
-            lss = []
+            lss, splines = [], []
             for l in lf:
                 mi = next(i for i, x in enumerate(l.args) if isinstance(x, fakegoofit.Sym) and x._path.startswith("M_"))
                 lss.append({"kind": l.path.split(".")[-1], "res": l.args[0], "L": int(l.args[mi - 1]), "mass": l.args[mi]._path})
+                if l.path.split(".")[-1] == "GSpline" and isinstance(l.args[-1], (tuple, list)) and len(l.args[-1]) == 3:
+                    a_, b_, n_ = l.args[-1]
+                    splines.append([l.args[0], fnum(a_), fnum(b_), int(n_)])
             model["amp_titles"].append(title)
             model["amps"].append({"title": title, "re_name": re_.args[0], "im_name": im_.args[0], "re": fnum(re_.args[1]),
                                   "im": fnum(im_.args[1]), "fixed": len(re_.args) == 2, "fixed_im": len(im_.args) == 2,
-                                  "sfs": sfs, "lss": lss, "n": int(n)})
+                                  "sfs": sfs, "lss": lss, "n": int(n), "splines": splines})
         except Exception as e:  # noqa: BLE001
             model["amps"].append(dict(BLANK_AMP, title="?unreadable " + repr(e)[:80]))
     return model, ns.events, err
@@ -154,6 +159,19 @@ def convert(fn, path):
         return ret if isinstance(ret, str) else "", buf2.getvalue(), buf1.getvalue(), "-" if r2 is None else "returned something although printing"
     except Exception as e:  # noqa: BLE001
         return "", "", "", type(e).__name__ + ": " + str(e)[:200]
+
+
+def build_with_sibling(args):
+    """the file, and - in the same process right after it - a sibling that differs only in its spline binning and its
+    parameter values: what one conversion leaves behind must not show in the next"""
+    cid, path, text, exempt, cli, tmpdir = args
+    out = [build(args)]
+    if text and "::Spline::Min" in text:
+        swap = {"0.18412": "0.25", "0.25": "0.6", "0.6": "0.18412"}
+        sib = re.sub(r"(::Spline::Min\s+)(\S+)", lambda m: m.group(1) + swap.get(m.group(2), "0.3"), text)
+        sib = re.sub(r"(::Spline::Max\s+)(\S+)", lambda m: m.group(1) + {"1.9": "2.5", "2.5": "3.0", "3.0": "1.9"}.get(m.group(2), "2.2"), sib)
+        out.append(build((f"{cid}s", None, sib, exempt, False, tmpdir)))
+    return out
 
 
 def build(args):
@@ -213,8 +231,15 @@ def build(args):
             except ValueError:
                 continue
             input_pars.append([parts[0], fnum(v), "fixed" if flag > 0 else fnum(e)])
+    # the spline binning the input file states per resonance: [min, max, n]
+    sp = {}
+    for ln in Path(path).read_text().splitlines():
+        mm = re.match(r"\s*(\S+)::Spline::(Min|Max|N)\s+(\S+)", ln.split("#")[0])
+        if mm:
+            sp.setdefault(mm.group(1), {})[mm.group(2)] = mm.group(3)
+    input_splines = [[fnum(v["Min"]), fnum(v["Max"]), int(float(v["N"]))] for v in sp.values() if {"Min", "Max", "N"} <= set(v)]
     return {"prop": "C19", "cid": cid, "file": Path(path).name if text is None else "generated", "text": text, "exempt": exempt,
-            "input_pars": input_pars,
+            "input_pars": input_pars, "input_splines": input_splines,
             "titles": titles, "obs": obs, "raw_py": raw.get("py", "")[:0]}
 
 
@@ -272,7 +297,7 @@ def run(tier, seed, replay_path=None):
             rc = json.load(open(replay_path))["case"]
             if rc.get("text"):
                 args = [(0, None, rc["text"], [], False, tmp)]
-        cases = pmap(build, args, chunk=1, limit=1500)
+        cases = [c for group in pmap(build_with_sibling, args, chunk=1, limit=1500) for c in group]
         rej = judge_emit(cases, wd, o, "judge both generated programs: declared-before-use, model equality, returned = printed (AmpEmit)")
         for c in cases:
             o.traces += 1
